@@ -89,7 +89,19 @@ func hostile(r *hx.Rand, kind int) []byte {
 		}
 		return b
 	}
-	switch kind % 20 {
+	kind = r.Intn(24) // the caller draws 0..15 only
+	switch kind {
+	case 19: // FU-A start whose RECONSTRUCTED NAL unit begins with a start code: indicator 1c (nri 0), FU header 80
+		// (type 0) => header byte 00, then 00 01 ...
+		return append([]byte{28, 0x80, 0x00, 0x01}, zeros()...)
+	case 20: // ... 4-byte start code at offset 0
+		return append([]byte{28, 0x80, 0x00, 0x00, 0x01}, small()...)
+	case 21:
+		return append([]byte{28, 0x80}, zeros()...)
+	case 22: // FU-A end that may complete such a unit
+		return append([]byte{28, 0x40}, zeros()...)
+	case 23:
+		return append([]byte{28, 0xC0, 0x00, 0x01}, small()...)
 	case 0: // FU-A start
 		return append([]byte{nri | 28, 0x80 | byte(r.Intn(32))}, small()...)
 	case 1: // FU-A middle
